@@ -26,7 +26,7 @@ RULE = ("geometry: (48 signed permutations + 2 rotations + shear + "
         "x1; thorough: 4x3x3); layout: 3-D / 4-D(2) / 4-D(3) / RGB x stored "
         "dtypes {u8,i8,i16,u16,i32,u32,u64,f32,f64} x header scaling {none, "
         "(2,1), (1,-1024), (1,0.5), (0.5,0)} x ignore_scaling x input_max "
-        "on 3 affines; headers whose qform/pixdim differ from the sform; qform-only headers (sform_code 0 with stale srow fields); a second run for another volume into the same directory (fails leaving the pair untouched, or writes a consistent pair); sharding strings {None, '1,1,0', '0,0,0', '2,3,1', "
+        "on 3 affines; headers whose qform/pixdim differ from the sform; qform-only headers (sform_code 0 with stale srow fields); a second run for another volume into the same directory (fails leaving the pair untouched, or writes a consistent pair); sharding strings (through the library function and through the console script) {None, '1,1,0', '0,0,0', '2,3,1', "
         "malformed...} x gzip. Checks: info size/channels/resolution/"
         "data_type, imperfect-type status, files == return values, "
         "T*((i+0.5)*res) == 1e6*A*i on the 27 voxels {0,1,n-1}^3, compact "
@@ -159,10 +159,30 @@ def _eval_in(col, case, d):
     nontriv = 1 if case.get("nontrivial") else 0
     bad_sharding = case.get("sharding_malformed", False)
     try:
-        with sandbox.quiet():
-            status = volume_reader.volume_file_to_info(
-                path, dest, ignore_scaling=case["ignore_scaling"],
-                input_min=None, input_max=case["input_max"], options=opts)
+        if case.get("via_cli"):
+            # through the console script (argument parsing included)
+            argv = ["--generate-info", path, dest]
+            if case.get("sharding") is not None:
+                argv += ["--sharding", case["sharding"]]
+                if not case.get("gzip", True):
+                    argv += ["--no-gzip"]
+            if case["ignore_scaling"]:
+                argv += ["--ignore-scaling"]
+            if case["input_max"] is not None:
+                argv += ["--input-max", repr(case["input_max"])]
+            r = sandbox.run_cli("volume_to_precomputed", argv)
+            if r.exc is not None:
+                raise r.exc
+            status = r.status
+            if bad_sharding and status not in (0, 4):
+                col.ev(1, 1, "sharding-refused")
+                return
+        else:
+            with sandbox.quiet():
+                status = volume_reader.volume_file_to_info(
+                    path, dest, ignore_scaling=case["ignore_scaling"],
+                    input_min=None, input_max=case["input_max"],
+                    options=opts)
     except Exception as exc:
         if bad_sharding:
             col.ev(1, 1, "sharding-refused")
@@ -445,6 +465,15 @@ def cases(tier):
                     "ignore_scaling": False, "input_max": None,
                     "sharding": s, "gzip": True, "sharding_malformed": True,
                     "nontrivial": True})
+    # the same sharding / option cases through the console script
+    for c in list(out):
+        if c["kind"] == "sharding" or (c["kind"] == "layout" and (
+                c.get("input_max") in (0.0, -1.0, 1e-9)
+                or (c["dtype"] == "uint8" and c["direction"] == three[1][0]
+                    and c["scaling"] in (None, [2.0, 1.0])))):
+            c2 = dict(c)
+            c2["via_cli"] = True
+            out.append(c2)
     return out
 
 
